@@ -25,6 +25,8 @@ DECO_MODE = 0  # 0: no decoration, all scopes; 1: every decoration, global scope
 
 def lim(n, q):
     """size of a variation pool: q in the quick tier, n in the thorough tier"""
+    if LEVEL < 0:
+        return 1  # pair mode: one representative per variation pool
     return n if LEVEL else min(n, q)
 
 
@@ -95,8 +97,8 @@ def form_variable(ch, u):
         # a declarator of the form `*name` after `T*` etc. is fine; references only plain
         value = None
         if init == 1:
-            d += " = 1 + 2"
-            value = val("1", "+", "2")
+            d += " = 16UL + 0x2ull"
+            value = val("16UL", "+", "0x2ull")
         elif init == 2:
             d += "{1, 2}"
             value = val("{", "1", ",", "2", "}")
@@ -191,7 +193,17 @@ def form_method_impl(ch, u):
 def form_typedef(ch, u):
     from cxxheaderparser.types import Typedef, Pointer, FunctionType, Parameter, Array
 
-    k = ch.pick(5)
+    k = ch.pick(7)
+    if k == 5:
+        from cxxheaderparser.types import Type, PQName, FundamentalSpecifier
+
+        cc = Pointer(Type(PQName([FundamentalSpecifier("char")]), const=True))
+        return f"typedef int pr{u}(const char *fmt, ...);", [("typedefs", Typedef(FunctionType(T_int(), [Parameter(cc, "fmt")], vararg=True), f"pr{u}"))], {}
+    if k == 6:
+        from cxxheaderparser.types import Type, PQName, FundamentalSpecifier
+
+        cc = Pointer(Type(PQName([FundamentalSpecifier("char")]), const=True))
+        return f"typedef int (*prp{u})(const char *fmt, ...);", [("typedefs", Typedef(Pointer(FunctionType(T_int(), [Parameter(cc, "fmt")], vararg=True)), f"prp{u}"))], {}
     if k == 0:
         return f"typedef int T{u};", [("typedefs", Typedef(T_int(), f"T{u}"))], {}
     if k == 1:
@@ -283,6 +295,8 @@ SCOPES = [
     ("anonymous", [("", False)], "namespace {{\n{X}\n}}"),
     ("extern-block", [], "extern \"C\" {{\n{X}\n}}"),
     ("depth2", [("o", False), ("i", False)], "namespace o {{ extern \"C++\" {{ namespace i {{\n{X}\n}} }} }}"),
+    # a nested-name definition whose leading component already exists (re-entered through the nested-name syntax)
+    ("reopened-prefix", [("a", False), ("b", False)], "namespace a {{ int pre; }}\nnamespace a::b {{\n{X}\n}}"),
 ]
 
 
@@ -303,7 +317,7 @@ def deco_ok(form, deco, src):
 
 def build_one(ch, u):
     form = FORMS[ch.pick(len(FORMS))]
-    if DECO_MODE == 0 and not PAIRS:
+    if DECO_MODE == 0:
         deco = ""
     else:
         deco = DECOS[ch.pick(len(DECOS))]
@@ -316,7 +330,7 @@ def build_one(ch, u):
 def build_program(ch):
     from cxxheaderparser.simple import ParsedData, NamespaceScope
 
-    if DECO_MODE == 0 or PAIRS:
+    if DECO_MODE == 0:
         scope = SCOPES[ch.pick(len(SCOPES))]
     else:
         scope = SCOPES[0]
@@ -343,6 +357,10 @@ def build_program(ch):
     if scope[1]:
         # inline is set on the innermost namespace of a nested-name definition only
         pass
+    if scope[0] == "reopened-prefix":
+        from cxxheaderparser.types import Variable
+
+        data.namespace.namespaces["a"].variables.append(Variable(name=pq("pre"), type=T_int()))
     for _, objs, extra in items:
         for coll, obj in objs:
             getattr(ns, coll).append(obj)
@@ -557,8 +575,8 @@ def run(tier):
         chrun.record(ck, r1b, "every single declaration with every ignored decoration before it (global scope)", bound=f"{len(FORMS)} forms x variations x {len(DECOS)} decorations")
         r2 = None
         if tier == "thorough":
-            shards = [(a, b, c) for a in range(len(SCOPES)) for b in range(len(FORMS)) for c in range(6)]
-            r2 = chrun.run(__name__, "h_decl", shards, timeout=2400, globs=dict(PAIRS=True, LEVEL=0), pool=pool)
+            shards = [(a, b) for a in range(len(SCOPES)) for b in range(len(FORMS))]
+            r2 = chrun.run(__name__, "h_decl", shards, timeout=1500, globs=dict(PAIRS=True, LEVEL=-1, DECO_MODE=0), pool=pool)
             chrun.record(ck, r2, "ordered pairs of declarations", bound="all pairs of single declarations (time-boxed per shard)")
     finally:
         pool.shutdown()
@@ -573,7 +591,7 @@ def run(tier):
     for pairs, r, dm in ((False, r1, 0), (False, r1b, 1), (True, r2, 0)):
         if r is None:
             continue
-        globals().update(LEVEL=(0 if (tier == "quick" or pairs) else 1), DECO_MODE=dm)
+        globals().update(LEVEL=(-1 if pairs else 0 if tier == "quick" else 1), DECO_MODE=dm)
         for shard, args, kw, msg in r.counterexamples:
             src, bad = decl_replay(list(shard) + list(args), pairs)
             ck.traces += 1
